@@ -365,9 +365,12 @@ def list_rules(ctx):
                 ch = x["cond"]["r"]["v"]
                 if ch in ".eE":
                     top = [st.get("e") for st in x["then"]["stmts"] if st.get("k") == "expr"]
-                    marks[ch] = any(e is not None and e.get("k") == "assign" and sir.expr_str(e["l"]) == "int" and sir.expr_str(e["r"]) == "None" for e in top)
+                    # the accumulator is put into its `not an integer` state: a plain local assigned a constant (None / a unit variant)
+                    resets = [(sir.expr_str(e["l"]), sir.expr_str(e["r"])) for e in top if e is not None and e.get("k") == "assign" and e["l"].get("k") == "path" and len(e["l"]["segs"]) == 1 and e["r"].get("k") == "path"]
+                    marks[ch] = resets[0] if resets else False
+        same = len(set(v for v in marks.values() if v)) == 1
         for ch in (".", "e"):
-            okm = marks.get(ch) is True
+            okm = bool(marks.get(ch)) and same
             obs.append(ob("C03.literal/float-mark/%s" % ("dot" if ch == "." else "exp"), okm, ctx.where(f),
                           "after `%s` the literal is no longer an integer (`int = None` at the top of that branch): %s" % (ch, marks.get(ch)),
                           witness=None if okm else "{{ 2e3 }} evaluates to 2"))
